@@ -59,7 +59,7 @@ if a.props:
 results = {}
 for p in props:
     t0 = time.time()
-    rc, out = sh('./check %s --tier %s' % (p, a.tier), cwd=ROOT, env=dict(os.environ, VERIF_REPO=wt))
+    rc, out = sh('./check %s --tier %s' % (p, a.tier), cwd=ROOT, env=dict(os.environ, VERIF_REPO=wt, VERIF_EVIDENCE_DIR='/tmp/scratch/evidence_seed'))
     lines = [l for l in out.splitlines() if l.startswith('VIOLATION') or l.startswith('HARNESS') or l.startswith('  kind=')]
     results[p] = {'exit': rc, 'wall_s': round(time.time() - t0, 1), 'lines': lines[:4]}
     print(p, 'exit', rc, '%.0fs' % (time.time() - t0), (lines[0][:200] if lines else ''))
